@@ -72,7 +72,9 @@ def first_read_fails(ck, rng, stats):
                              {"fault_at_call": at, "errno": en, "call": tr[at]["c"], "rc": rc_, "out": out_[-300:]})
                 continue
             for jid, w in want.items():
-                if got.get(jid) != w:
+                # the rule is what is judged: a protected link that is now followed, or a harmless one that is now refused by the
+                # rule; other errors after a fault (the lookup failing closed for an unrelated reason) are not this property's
+                if (w, got.get(jid)) in (("err:13", "ok"), ("ok", "err:13")):
                     dm, du, lu, ca, pos = combos[jid - 1]
                     ck.violation("C15: after one failed read of fs.protected_symlinks (at first use) later lookups no longer follow the kernel's rule",
                                  {"fault_at_call": at, "errno": en, "faulted_call": {k: v for k, v in tr[at].items() if k in ("c", "path", "fd")},
